@@ -118,7 +118,7 @@ func clip(s string) string {
 func TestC03Histories(t *testing.T) {
 	h.Run(t, h.Spec[Case]{
 		Property: "C03", Name: "histories", Quick: 16000, Thorough: 320000,
-		Rule: "start tree (3..10 tips, 5% up to 30/80; rooted or not, multifurcating, optional single-child nodes, built by the parser or through the API, indexed or not) followed by 1..12 (quick) / 1..40 (thorough) operations of 29 kinds with drawn arguments; invariant checked after every successful step; non-trivial = >=3 successful edits of >=2 kinds on a tree that is multifurcating or changes rootedness",
+		Rule: "start tree (3..10 tips, 5% up to 30/80; rooted or not, multifurcating, optional single-child nodes, built by the parser or through the API, indexed or not) followed by 1..12 (quick) / 1..40 (thorough) operations of 44 kinds with drawn arguments (among them: a rearrangement applied, other edits that reorder neighbours or change labels, then its Undo); invariant checked after every successful step; non-trivial = >=3 successful edits of >=2 kinds on a tree that is multifurcating or changes rootedness",
 		Gen: func(t *rapid.T, thorough bool) Case {
 			max := 12
 			if thorough {
@@ -128,6 +128,19 @@ func TestC03Histories(t *testing.T) {
 			so.Comments = rapid.IntRange(0, 2).Draw(t, "comments") == 0 // node / root / branch comments must follow their node and branch through every edit
 			c := Case{Start: gen.Tree(t, so), Indexed: rapid.Bool().Draw(t, "indexed"), ViaAPI: rapid.Bool().Draw(t, "api")}
 			c.Ops = rapid.SliceOfN(rapid.Custom(func(t *rapid.T) ops.Op { return ops.GenOp(t, ops.Kinds) }), 1, max).Draw(t, "ops")
+			// a rearrangement that is applied and kept is usually undone a little later, after edits that
+			// reorder neighbours or change labels (the drawn list alone rarely produces that sequence)
+			var seq []ops.Op
+			for _, op := range c.Ops {
+				seq = append(seq, op)
+				if op.Kind == "nni_hold" && rapid.IntRange(0, 3).Draw(t, "holdseq") > 0 {
+					for i, n := 0, rapid.IntRange(1, 2).Draw(t, "between"); i < n; i++ {
+						seq = append(seq, ops.GenOp(t, []string{"sort", "rotate", "rotate_node", "rename_swap", "reinit", "scale_lengths"}))
+					}
+					seq = append(seq, ops.Op{Kind: "nni_release"})
+				}
+			}
+			c.Ops = seq
 			return c
 		},
 		Check: func(c Case) error { _, err := run(c); return err },
